@@ -17,7 +17,7 @@ fn excluder(a: &Active, w: &mut World, conn: usize, c: &Cmd) -> Option<&'static 
 pub fn spec() -> HistSpec {
     HistSpec {
         id: "C07",
-        rule: "A: generated histories of 1..8 blocks over 3 connections (MULTI, 0..8 queued commands of every family incl. ones that fail at run time, commands of other connections interleaved while the first is inside MULTI, then EXEC / DISCARD / disconnect / nothing; stray EXEC, DISCARD, nested MULTI), sequenced by the harness and compared with the model: +QUEUED and no effect while queueing (dump from an observer connection), EXEC slots equal the model's back-to-back replies, errors stay in their slot, state cleared by EXEC/DISCARD/disconnect. Non-trivial = an EXEC with >= 2 queued commands and at least one mutation; distinct by hash of the step list. B: bursts of 6 writer connections running generated transfer transactions (one write / one write per command / two transactions pipelined) and 6 reader connections taking MGET, LLEN and read-only MULTI/EXEC snapshots; oracle: every snapshot sums to the initial total, the log length is even, final state = acknowledged transfers; non-trivial = distinct balance tuples seen by snapshots whose [send, receive] interval overlaps a transfer",
+        rule: "A: generated histories of 1..8 blocks over 3 connections (MULTI, 0..8 queued commands of every family incl. ones that fail at run time, commands of other connections interleaved while the first is inside MULTI, then EXEC / DISCARD / disconnect / nothing; stray EXEC, DISCARD, nested MULTI), sequenced by the harness and compared with the model: +QUEUED and no effect while queueing (dump from an observer connection), EXEC slots equal the model's back-to-back replies, errors stay in their slot, state cleared by EXEC/DISCARD/disconnect. Non-trivial = an EXEC with >= 2 queued commands and at least one mutation; distinct by hash of the step list. B: bursts of 6 writer connections running generated transfer transactions (one write / one write per command / two transactions pipelined) and 6 reader connections taking MGET, LLEN and read-only MULTI/EXEC snapshots; oracle: every snapshot sums to the initial total, the log length is even, final state = acknowledged transfers; non-trivial = distinct balance tuples seen by snapshots whose [send, receive] interval overlaps a transfer. C: a client blocked in BLPOP/BRPOP while another connection's transaction (sent in one write or command by command) pushes to its list by LPUSH/RPUSH/EVAL/EVALSHA and then reads it with LLEN/LRANGE/LPOP/RPOP: the EXEC reply equals the queued commands run back to back, the blocked client is served only afterwards; non-trivial = the list is looked at after a push inside the transaction",
         history: Some(|max_len| crate::gen::c07_history(3, std::cmp::max(2, max_len / 5))),
         max_len: 40,
         quick_cases: 4000,
@@ -28,8 +28,11 @@ pub fn spec() -> HistSpec {
         label_floors: vec![("exec>=2", 300), ("exec-slot-error", 100), ("discard", 50), ("reconnect", 30), ("mid-dump", 200)],
         assumptions: vec!["queue-time rejection (EXECABORT) of unknown commands is not assumed: only known commands with valid arity are queued", "one command is one step on the single command thread, so harness-sequenced interleavings are deterministic"],
         nconns: 3,
-        pre_phase: Some(super::c07b::phase),
-        pre_replay: Some(super::c07b::replay),
+        pre_phase: Some(|ev, tier, seed| {
+            super::c07b::phase(ev, tier, seed);
+            super::c07c::phase(ev, tier, seed);
+        }),
+        pre_replay: Some(|v| super::c07b::replay(v).or_else(|| super::c07c::replay(v))),
         ..Default::default()
     }
 }
